@@ -9,6 +9,7 @@ def run(ctx):
     cache_files.rebuild_then_repeat(ctx, lambda key, what, replay: ctx.fail(key, what, replay))
     failing_sibling_write_in_flight(ctx)
     mounted_streaming_write_fails(ctx)
+    disk_full(ctx)
     camp = cache_corr.Campaign(ctx)
     cache_corr.history_campaign(ctx, camp, ctx.n(60, 1200), ctx.n(6, 8))
     camp.eval_model()
@@ -194,3 +195,81 @@ def mounted_streaming_write_fails(ctx):
                          % (fail_after, "an older complete value was in place" if pre_existing else "nothing stored before", first,
                             "was changed" if after_cut != before else "was left alone", got, stored),
                          {"fail_after_rows": fail_after, "pre_existing": pre_existing})
+
+
+DISK_FULL_CHILD = r'''
+import json, os, resource, signal, sys, tempfile, shutil, pathlib
+import uberjob
+import uberjob.stores as st
+signal.signal(signal.SIGXFSZ, signal.SIG_IGN)
+out = []
+# (limit, size of the values): 8192 / large values fail in the middle of the store's write; 1024 / values smaller than the io buffer fail
+# only when the buffered tail is flushed, at close
+for limit, n in ((8192, 40000), (1024, 3000), (1024, 1500)):
+    for kind, cls, mk in (("text", st.TextFileStore, lambda c, k: c * k), ("binary", st.BinaryFileStore, lambda c, k: c.encode() * k),
+                          ("json", st.JsonFileStore, lambda c, k: [c * k]), ("pickle", st.PickleFileStore, lambda c, k: (c * k, k))):
+        for pk in ("str", "pathlib"):
+            d = tempfile.mkdtemp(prefix="ujc08full_")
+            try:
+                P = (lambda x: pathlib.Path(os.path.join(d, x))) if pk == "pathlib" else (lambda x: os.path.join(d, x))
+                plan, reg = uberjob.Plan(), uberjob.Registry()
+                a = plan.call(mk, "a", n)
+                b = plan.call(lambda x: (len(x), x[-1]), a)
+                sa, sb = cls(P("a.dat")), st.JsonFileStore(P("b.json"))
+                reg.add(a, sa)
+                reg.add(b, sb)
+                want_a, want_b = mk("a", n), [len(mk("a", n)), json.loads(json.dumps((mk("a", n)[-1] if kind != "binary" else mk("a", n)[-1])))]
+                resource.setrlimit(resource.RLIMIT_FSIZE, (limit, resource.RLIM_INFINITY))
+                try:
+                    uberjob.run(plan, registry=reg, output=b, progress=None, max_workers=1)
+                    oc = "returned"
+                except uberjob.CallError as e:
+                    oc = "callerror"
+                except BaseException as e:
+                    oc = "raised %s" % type(e).__name__
+                finally:
+                    resource.setrlimit(resource.RLIMIT_FSIZE, (resource.RLIM_INFINITY, resource.RLIM_INFINITY))
+                listing1 = sorted(os.listdir(d))
+                try:
+                    res = uberjob.run(plan, registry=reg, output=b, progress=None, max_workers=1)
+                    oc2 = "ok"
+                except BaseException as e:
+                    oc2, res = "raised %s: %s" % (type(e).__name__, str(e).splitlines()[0]), None
+                def rd(s_):
+                    try:
+                        return s_.read() if s_.get_modified_time() is not None else "<nothing stored>"
+                    except BaseException as e:
+                        return "<read raises %s>" % type(e).__name__
+                got_a, got_b = rd(sa), rd(sb)
+                out.append({"limit": limit, "n": n, "store": kind, "path": pk, "cut_run": oc, "after_cut": listing1, "repair": oc2,
+                            "a_ok": got_a == want_a, "a_len": len(got_a[0]) if isinstance(got_a, (list, tuple)) else len(got_a),
+                            "b": repr(got_b), "b_ok": list(got_b) == list(want_b) if isinstance(got_b, (list, tuple)) else False, "out": repr(res),
+                            "out_ok": res is not None and list(res) == list(want_b), "want_b": repr(want_b)})
+            finally:
+                shutil.rmtree(d, ignore_errors=True)
+print(json.dumps({"uberjob": os.path.dirname(uberjob.__file__), "out": out}))
+'''
+
+
+def disk_full(ctx):
+    """The run is cut short by the file system refusing data (a file-size limit, a quota, a full disk - produced for real with
+    RLIMIT_FSIZE in a helper process), in the middle of a store's write or only when the buffered tail is flushed at close; the next run,
+    with room again, must leave from-scratch values: a value cut short must never be trusted as up to date."""
+    import json
+    import subprocess
+    p = subprocess.run([core.PY, "-c", DISK_FULL_CHILD], env=core.repo_env(), stdout=subprocess.PIPE, stderr=subprocess.PIPE, text=True, timeout=300)
+    ctx.case(("c08-disk-full",))
+    if p.returncode != 0:
+        ctx.broke("C08 disk-full helper failed", p.stderr[-1500:])
+        return
+    rep = json.loads(p.stdout)
+    if not rep["uberjob"].startswith(core.REPO_SRC):
+        ctx.broke("C08 helper imported uberjob from the wrong place", rep["uberjob"])
+    for r in rep["out"]:
+        ctx.case(("c08-disk-full", r["limit"], r["n"], r["store"], r["path"]))
+        ctx.count("disk_full_cut_run", r["cut_run"])
+        if r["repair"] != "ok" or not (r["a_ok"] and r["b_ok"] and r["out_ok"]):
+            ctx.fail("disk-full", "%s store (%s path), a value of %d items under a file-size limit of %d bytes: the cut run %s (files afterwards: %r); the next run, without the limit, %s; "
+                     "a.dat then holds %s (%d items), b.json %s, the output is %s (from scratch: %s)"
+                     % (r["store"], r["path"], r["n"], r["limit"], r["cut_run"], r["after_cut"], "succeeded" if r["repair"] == "ok" else r["repair"],
+                        "the value" if r["a_ok"] else "ANOTHER value", r["a_len"], r["b"], r["out"], r["want_b"]), r)
